@@ -65,6 +65,8 @@ Cat(s, i) == IF i > Len(s) THEN "" ELSE s[i] \o Cat(s, i + 1)
 ReverseName6(a) == ToString(a) \o "." \o Cat(Zeros(27), 1) \o "1.0.0.2.ip6.arpa"
 (* 2001:db8:1111:2222:3333:4444:5555:000a with a < 10 *)
 ReverseName6L(a) == ToString(a) \o ".0.0.0.5.5.5.5.4.4.4.4.3.3.3.3.2.2.2.2.1.1.1.1.8.b.d.0.1.0.0.2.ip6.arpa"
+(* 2001:db8:9abc:def0:1234:5678:fedc:000a with a < 10: every hexadecimal digit occurs in the reverse-map name *)
+ReverseName6X(a) == ToString(a) \o ".0.0.0.c.d.e.f.8.7.6.5.4.3.2.1.0.f.e.d.c.b.a.9.8.b.d.0.1.0.0.2.ip6.arpa"
 
 (* reverse side of the hosts database: the first name on the line of that address ("" = not listed) *)
 HostsRev(fam, a, long) ==
